@@ -372,6 +372,8 @@ func (in *Interp) execLoop(f *Frame, M *Loop) {
 		accExit[i] = ts.False
 	}
 	accRegs := make([]Value, len(M.liveOut))
+	var prevHg *Term
+	symIters := 0
 	for iter := 0; ; iter++ {
 		hg := in.orSlots(f.inG[h.Index])
 		if h.Index == 0 && iter == 0 {
@@ -380,10 +382,16 @@ func (in *Interp) execLoop(f *Frame, M *Loop) {
 		stop := false
 		if hg.IsFalse() {
 			stop = true
+		} else if !hg.IsTrue() && hg == prevHg {
+			// same guard as the previous iteration: the loop condition itself was concrete
+			if iter > 5000000 {
+				abortf("concrete loop exceeded 5000000 iterations in %s", f.fn)
+			}
 		} else if !hg.IsTrue() {
+			symIters++
 			if !in.feasible(hg) {
 				stop = true
-			} else if iter >= in.cfg.Unwind {
+			} else if symIters > in.cfg.Unwind {
 				in.unwindHit++
 				in.inconclusive = append(in.inconclusive, Inconclusive{What: fmt.Sprintf("unwinding bound %d insufficient", in.cfg.Unwind), Where: in.where()})
 				in.assume(ts.Not(hg))
@@ -400,6 +408,7 @@ func (in *Interp) execLoop(f *Frame, M *Loop) {
 			}
 			break
 		}
+		prevHg = hg
 		in.execBlock(f, h, hg)
 		in.execRegion(f, M)
 		gi := ts.False
